@@ -118,7 +118,12 @@ def unit_case(draw):
     if dtype == "f":
         col = draw(st.lists(st.one_of(st.floats(-1e6, 1e6), st.sampled_from([0.0, -0.0, 1e-300, 1e15, -1e15, 0.1, 0.2, 0.3])), min_size=n, max_size=n))
     elif dtype == "i":
-        col = draw(st.lists(st.integers(-10**6, 10**6), min_size=n, max_size=n))
+        # integer columns come in every width a table can have (e.g. Stata `byte` / `int` -> int8 / int16);
+        # every single value fits the width, a group total need not
+        width = draw(st.sampled_from(["int64", "int64", "int32", "int16", "int8", "uint8"]))
+        info = np.iinfo(width)
+        lo, hi = max(int(info.min), -10**6), min(int(info.max), 10**6)
+        col = draw(st.lists(st.one_of(st.integers(lo, hi), st.sampled_from([lo, hi, hi - 1])), min_size=n, max_size=n))
     elif dtype == "b":
         col = draw(st.lists(st.booleans(), min_size=n, max_size=n))
     elif dtype == "M":
@@ -128,15 +133,18 @@ def unit_case(draw):
     # pointers: into a unique p_id vector, with negatives
     p_id = draw(st.lists(st.integers(0, 10**5), min_size=n, max_size=n, unique=True))
     ptr = [draw(st.one_of(st.sampled_from(p_id), st.sampled_from(p_id), st.sampled_from([-1, -1, -2, -7]))) for _ in range(n)]
-    return {"gid": gid, "dtype": dtype, "col": col, "p_id": p_id, "ptr": ptr}
+    out = {"gid": gid, "dtype": dtype, "col": col, "p_id": p_id, "ptr": ptr}
+    if dtype == "i":
+        out["width"] = width
+    return out
 
 
 def np_col(case):
     d = case["dtype"]
     if d == "f":
-        return np.array(case["col"], dtype="float64")
+        return np.array(case["col"], dtype=case.get("width", "float64"))
     if d == "i":
-        return np.array(case["col"], dtype="int64")
+        return np.array(case["col"], dtype=case.get("width", "int64"))
     if d == "b":
         return np.array(case["col"], dtype="bool")
     if d == "M":
@@ -247,7 +255,7 @@ def unit_shard(desc):
         fails = check_unit(case)
         if nontrivial_unit(case):
             sh.nontrivial.add("A|" + core.digest(case))
-        sh.classes[f"A-dtype:{case['dtype']}"] += 1
+        sh.classes[f"A-dtype:{case['dtype']}" + (f":{case['width']}" if case.get("width") else "")] += 1
         sh.sample({"sub_check": "A", **{k: (v[:10] if isinstance(v, list) else v) for k, v in case.items()}}, limit=2)
         for f in fails:
             if f.key not in known:
